@@ -63,6 +63,8 @@ class _ExprEncoder(_StandaloneEncoder[List[Operation]]):
             op, op_read = Operation.decode(io, byteorder, ptr_size)
             ops.append(op)
             op_bytes_read += op_read
+        if op_bytes_read != length:
+            raise ValueError("operation extends past the end of its expression")
         return ops, len_read + op_bytes_read
 
 
